@@ -43,7 +43,7 @@ structure Col where
   deriving DecidableEq, Repr
 
 /-- `add_column_internal`: levels of a flat column -/
-def Col.maxDef (c : Col) : Nat := if c.rep = .optional then 1 else 0
+def Col.maxDef (c : Col) : Nat := if c.rep = .required then 0 else 1   -- after F60 (was: 1 for OPTIONAL only)
 def Col.maxRep (c : Col) : Nat := if c.rep = .repeated then 1 else 0
 
 /-- a value is its bit pattern: the bytes PLAIN stores for it (BOOLEAN: one byte 0/1;
